@@ -169,6 +169,8 @@ class RuntimeAssertionFeedback(AssertionFeedback):
             #if not hasattr(self, "_met_condition"):
             #    self._met_condition = False
             #    raise e
+            # The relation could not be evaluated, so it does not hold
+            self._record_as_failed()
             parent = self.report.get_current_group()
             # TODO: Does this handle nested groups correctly?
             if parent is not None:
@@ -177,6 +179,31 @@ class RuntimeAssertionFeedback(AssertionFeedback):
         if not self:
             if self.report[TOOL_NAME]['exceptions']:
                 raise AssertionBreak(self)
+
+    def _handle_condition(self):
+        # An operand that is itself an error (e.g., the student's call raised)
+        # never satisfies an assertion, whatever the relation.
+        if any(isinstance(arg, InterpolatedValue) and arg.is_error
+               for arg in self._stored_args):
+            self.condition = self._operand_is_error
+        super()._handle_condition()
+
+    @staticmethod
+    def _operand_is_error(*args, **kwargs):
+        return True
+
+    def _record_as_failed(self):
+        """ An assertion whose condition raised is a failed assertion (it
+        keeps its error status), not an untriggered one. """
+        self._met_condition = True
+        if any(feedback is self for feedback in self.report.ignored_feedback):
+            self.report.ignored_feedback[:] = [feedback for feedback in self.report.ignored_feedback
+                                               if feedback is not self]
+            self.report.feedback.append(self)
+        try:
+            self.message = self._get_message()
+        except Exception:
+            self.message = self.DEFAULT_FEEDBACK_MESSAGE
 
     def get_sandbox_contexts(self, wrapped_values):
         """ Retrieve any sandbox contexts associated with these values. """
